@@ -4,3 +4,29 @@ use super::*;
 
 // --- C30 (np_misc_h): the record type lives in a private module; re-export only.
 pub use super::NtsRecord as Record;
+
+// The per-type body parsers are private; thin forwarding wrappers (no extra `async` layer).
+// `NtsRecord::parse` itself (header + dispatch) is public and driven directly.
+macro_rules! sub_parser {
+    ($name:ident, $target:ident) => {
+        pub fn $name<R: AsyncRead + Unpin>(
+            body: Take<R>,
+        ) -> impl std::future::Future<Output = Result<NtsRecord<'static>, Error>> {
+            NtsRecord::$target(body)
+        }
+    };
+}
+sub_parser!(sub_end_of_message, parse_end_of_message);
+sub_parser!(sub_next_protocol, parse_next_protocol);
+sub_parser!(sub_error, parse_error);
+sub_parser!(sub_warning, parse_warning);
+sub_parser!(sub_aead_algorithm, parse_aead_algorithm);
+sub_parser!(sub_new_cookie, parse_new_cookie);
+sub_parser!(sub_server, parse_server);
+sub_parser!(sub_port, parse_port);
+sub_parser!(sub_keep_alive, parse_keep_alive);
+sub_parser!(sub_supported_next_protocol_list, parse_supported_next_protocol_list);
+sub_parser!(sub_supported_algorithm_list, parse_supported_algorithm_list);
+sub_parser!(sub_fixed_key_request, parse_fixed_key_request);
+sub_parser!(sub_ntp_server_deny, parse_ntp_server_deny);
+sub_parser!(sub_authentication, parse_authentication);
